@@ -43,6 +43,26 @@ claim("C10", "DESIGN.md §4 C10",
       "Decides that the features are confined so they cannot change what is parsed: (I1) full-lexer / all-nodes-with-ranges / backend cfg sites occur only in their classified files (none in parser/src for ranges); (F1) full-lexer-gated lexer statements only read positions or emit the two trivia kinds and the lex_comment twins consume the same characters; (F2) the trivia filter sits in parse_filtered_tokens before the only TopParser invocation; (F3) gated kinds = filtered kinds = kinds the soft-keyword pass ignores; (R1) OptionalRange is R or EmptyRange<R>, optional_range flows only into range fields; (B1) backends only through the alias; (U1) feature-dependent todo!() (from_arg) unreachable from the parser; (G1) python.rs = regenerated grammar in every configuration. Thorough: (M1) all 7 supported configurations type-check.",
       "Static rule discharge over all non-test sources of the six crates." + COMMON_NOTE)
 
+claim("C04", "DESIGN.md §4 C04",
+      "static analysis: must-call / dominance rules on the LALRPOP grammar (validators first in every consuming action), who-may-consume on the grammar's consumer graph, sibling agreement of the bracket arms and of the non-ASCII predicates, abstract execution of the lexer arms for error exits, G1",
+      "Decides that every enforcement site of the parser's own rules exists on every grammar/lexer path that needs it: (V1/V2) Parameters, LambdaDef and every ParameterList alternative call their validators first, and nothing else consumes ParameterList / FunctionArgument / ArgumentList; (V3) validate_arguments covers all five parameter-carrying fields of Arguments and validate_pos_params scans posonlyargs++args once; (V4) parse_args' three error exits and bookkeeping; (V5) the four fallible grammar actions (bare *, (*x), (**x), as _); (L1) bracket arms agree (test nesting == 0 before decrementing), EOF in brackets; (L2/L2b) compare_strict/TabError, dedent loop, TabsAfterSpaces; (L3) unrecognised character, lone !, line continuation, unterminated strings; (N1) numeric shape checks precede consumption; (S1) mixing check before decoding, both non-ASCII-bytes predicates agree, every f-string error kind has a live site; (E1) error kind mapping and exhaustive LALRPOP error mapping. Not decided: that the conditions are exactly Python's for all inputs.",
+      "Static rule discharge over parser/src/python.lalrpop (= python.rs by G1), function.rs, lexer.rs, string.rs, parser.rs." + COMMON_NOTE)
+
+claim("C06", "DESIGN.md §4 C06",
+      "static analysis: match-arm evaluation of the decoding tables (escape arms, string prefixes, radix prefixes, digit classes, conversion flags) to sets of pairs compared with Python 3.11 reference tables; ordering rules in lex_string; trusted-conversion rules",
+      "Decides that the decoding tables equal the reference tables: (E1) all 10 simple escapes, the octal arm ('0'..='7', at most 3 digits, lossless u32 conversion), \\x/\\u/\\U digit counts, text-only guards, backslash-newline, unknown escapes; (P1) all 8+16 prefix spellings, prefix_len, kind predicates, Display; (R1) 0x/0o/0b in both cases and only those, digit classes per radix; (V1) values come from BigInt::from_str_radix / parse::<BigInt> / f64::from_str of the scanned text with only underscores dropped and the exponent marker lower-cased; (S1) escaped quotes/line breaks never terminate a literal, triple-quote detection; (C1) conversion flags; (W1) the repr writers emit only escapes of that table. Not decided: the scanner's acceptance set; correct rounding is std's.",
+      "Static rule discharge over parser/src/string.rs, lexer.rs, token.rs, core/src/format.rs, literal/src/escape.rs; oracle refdata/py311_escapes.json; std conversions trusted." + COMMON_NOTE)
+
+claim("C14", "DESIGN.md §4 C14, App. A.6",
+      "static analysis: list-provenance abstract interpretation of the three conversion functions (which source list, which default-filter, which projection each output list is built from), linear-form check of the padding counts, sibling agreement",
+      "Decides cardinality and field flow for ALL signatures by interpreting the three functions over abstract lists: (F1) to_python_arguments and into_python_arguments build posonlyargs/args in order, defaults = defaults of posonlyargs then args, kwonlyargs = no-default then with-default (stable partition), kw_defaults aligned to that tail, vararg/kwarg/range from the same-named field, using only push/extend, and compute the same abstract result; (L1) into_arguments pads each default list with exactly (parameters - defaults) Nones computed from the input lists (a length read from a freshly created vector is reported), splits the positional padding tail-first, and zips each parameter list with its own padded list. Not decided: default alignment when the documented preconditions (defaults <= parameters) are violated by a hand-built PythonArguments.",
+      "Static rule discharge over ast/src/generic.rs." + COMMON_NOTE)
+
+claim("C16", "DESIGN.md §4 C16, App. A.5",
+      "static analysis: partition evaluation — the layout pre-pass and the character writer are interpreted (syntax-tree interpreter, nothing compiled or run) on one representative of every cell of the scalar-value space split at all constants they compare against, crossed with the opaque is_printable predicate and both quotes; finite-ordering evaluation of choose_quote; writer/reader escape-table agreement",
+      "Decides for ALL code points and bytes (by partition, exhaustively over cells): (A1) the length the layout announces per character equals what write_char emits, for UnicodeEscape and AsciiEscape; (A2) emitted length >= own length with equality iff verbatim, so the fast path is taken iff nothing needs escaping, and AsciiEscape's verbatim cells are printable ASCII (discharging from_utf8_unchecked); (Q1) choose_quote equals Python's rule on every ordering of the two counts, and returns the chosen quote's count; (F1) changed()/write_body/repr framing; (W1) every emitted escape form is in the reference table with the same meaning and digit count. Not decided: identity with CPython's repr where printable status depends on the Unicode tables of a dependency.",
+      "Static rule discharge over literal/src/escape.rs; oracle refdata/py311_escapes.json; the interpreter tools/rpverif/src/eval.rs is part of the trusted base." + COMMON_NOTE)
+
 def main():
     props = [json.loads(l) for l in open(os.path.join(HERE, "properties.jsonl"))]
     checks, na = [], []
